@@ -37,15 +37,6 @@ set_option linter.unusedSimpArgs false
 
 variable {K : Type} [Field K] (c c3 : K) (fn : Fns K)
 
-/-- eigenvector matrix returned by the (stubbed) eigen-solver for the stored components `s` -/
-def solM3 (s : List K) : M3 K :=
-  ⟨fn.call "m00" s, fn.call "m01" s, fn.call "m02" s, fn.call "m10" s, fn.call "m11" s, fn.call "m12" s,
-   fn.call "m20" s, fn.call "m21" s, fn.call "m22" s⟩
-/-- in 2D the solver returns an in-plane rotation and the out-of-plane axis -/
-def solM2 (s : List K) : M3 K := M2 (fn.call "m00" s) (fn.call "m01" s) (fn.call "m10" s) (fn.call "m11" s)
-/-- eigenvalues returned by the (stubbed) eigen-solver -/
-def solvp (i : String) (s : List K) : K := fn.call i s
-
 /-! ## `tfel::math::abs` (General/Abs.hxx), both paths -/
 section ordered
 variable {F : Type} [Field F] [LinearOrder F] [IsStrictOrderedRing F] (d d3 : F) (gn : Fns F)
